@@ -63,6 +63,7 @@ GEN_DIR = os.path.join(common.LEAN, "MjProof", "Gen")
 GEN_LEAN = os.path.join(GEN_DIR, "MjbLayout.lean")
 GEN_JSON = os.path.join(GEN_DIR, "MjbLayout.json")
 ALLOC_CAP = 256 << 20  # harness/c/c31_mjb.c: alloc_cap
+QUICK_SAMPLED_PER_MODEL = 260
 
 # ------------------------------------------------------------------------------------------ hand-written list
 # Index-valued int arrays of mjModel (include/mujoco/mjmodel.h), written by hand from the field comments:
@@ -266,7 +267,7 @@ PROFILES = [
 
 def gen_model(rng, k):
     prof = PROFILES[k % len(PROFILES)]
-    g = ModelGen(rng, prof)
+    g = ModelGen(rng, dict(prof, memory=1 << 20))
     mdl = g.make()
     L = list(mdl.lines)
     # exercise the MJ_M(...) column sizes and the text arrays (post-processing of the generator's lines)
@@ -298,8 +299,8 @@ def corruption_cases(ctx, info, img, thorough, fields, table_rows):
     S = img.S
     out = []
 
-    def case(cls, field, edits, note=""):
-        out.append({"cls": cls, "field": field, "edits": edits, "note": note})
+    def case(cls, field, edits, note="", canonical=False):
+        out.append({"cls": cls, "field": field, "edits": edits, "note": note, "canonical": canonical or cls in ("header", "nnames_map")})
     # header ints, every byte
     for i, h in enumerate(info["header"]):
         hb = struct.pack("<i", h)
@@ -368,20 +369,41 @@ def corruption_cases(ctx, info, img, thorough, fields, table_rows):
     for r in table_rows:
         tgt.setdefault(r["name"], set()).add(S[r["target"]])
     for name in names:
-        if name not in img.arr_n or img.ptr[name]["esz"] != 4:
+        if name not in img.arr_n or img.ptr[name]["esz"] != 4 or img.arr_n[name] == 0:
             continue
         n = img.arr_n[name] // 4
         cur = img.ints(name)
+        # canonical probes, run for every array on every run (the set of reported keys does not depend on sampling)
+        e0 = n - 1
+        for v in (0x40000000, -2):
+            case("ref", name, "w%d:%s" % (img.arr_off[name] + 4 * e0, i32(v)), "[%d]=%d" % (e0, v), canonical=True)
         for e in sample_entries(rng, n, 4 if thorough else 2):
             T = sorted(tgt.get(name, {0}))
-            cand = {-2, -1, 2147483647, -2147483648, 0x40000000, 0x7fffff00}
+            cand = {-1, 2147483647, -2147483648, 0x7fffff00}
             for t in T:
                 cand |= {t, t + 1, t - 1, max(t - 2, 0)}
             cand.add(rng.randint(0, max(T[-1], 1)))
-            vals = sorted(cand) if thorough else rng.sample(sorted(cand), 5)
+            vals = sorted(cand) if thorough else rng.sample(sorted(cand), 4)
             for v in vals:
                 if -2147483648 <= v <= 2147483647 and v != cur[e]:
                     case("ref", name, "w%d:%s" % (img.arr_off[name] + 4 * e, i32(v)), "[%d]=%d" % (e, v))
+    # canonical probes of the suspicions of DESIGN.md §6 (each only where the model has the object)
+    if img.arr_n.get("geom_bodyid"):
+        case("ref", "geom_bodyid", "w%d:%s" % (img.arr_off["geom_bodyid"], i32(2147483647)), "[0]=2147483647", canonical=True)
+    for r in table_rows:
+        if r["num"] and img.arr_n.get(r["name"]):
+            nums = img.ints(r["num"])
+            hit = [i for i, v in enumerate(nums) if v > 0]
+            if hit:
+                case("ref", r["name"], "w%d:%s" % (img.arr_off[r["name"]] + 4 * hit[-1], i32(-1)), "[%d]=-1 with %s=%d" % (hit[-1], r["num"], nums[hit[-1]]), canonical=True)
+                break
+    if img.arr_n.get("sensor_type"):
+        case("type", "sensor_type", "w%d:%s" % (img.arr_off["sensor_type"], i32(info["enums"]["mjSENS_PLUGIN"])), "[0]=mjSENS_PLUGIN", canonical=True)
+        o = img.arr_off["sensor_type"]
+        case("type", "sensor_type", "w%d:%s w%d:%s" % (o, i32(info["enums"]["mjSENS_TACTILE"]), img.arr_off["sensor_refid"], i32(-1)),
+             "[0]=mjSENS_TACTILE, sensor_refid[0]=-1", canonical=True)
+    if img.arr_n.get("eq_type"):
+        case("type", "eq_type", "w%d:%s" % (img.arr_off["eq_type"], i32(99)), "[0]=99", canonical=True)
     # type / selector arrays
     enum_vals = sorted({v for k, v in info["enums"].items()}) + [-1, 4, 7, 99, 1000, 2147483647, -2147483648]
     for name in TYPE_ARRAYS:
@@ -505,14 +527,15 @@ def rule_lines(info, fields):
     return L
 
 
-def classify(ctx, case, model_out, impl_out, covered, mdl_idx, desc, fails):
-    """property oracle on the implementation's output alone (the model's output is only used to label hazards)"""
+def classify(ctx, case, model_out, impl_out, covered, mdl_idx, desc, fails, notes):
+    """property oracle on the implementation's output alone (the model's output is only quoted in the replay).
+    `fails`: key -> [(what, replay)] (violations); `notes`: label -> [text] (observations that are not violations of C31)"""
     res, orc = split_out(impl_out)
     cls, field = case["cls"], case["field"]
     replay = {"model": mdl_idx, "op": "load " + case["edits"], "class": cls, "field": field, "note": case["note"], "impl_output": impl_out[:600],
               "model_output": model_out[:300],
-              "replay": "printf 'model <description of model %d (evidence: models[%d])>\\nrule ...\\noracle 1\\nload %s\\n' | <c31_mjb harness>"
-                        % (mdl_idx, mdl_idx, case["edits"][:300]), "description": desc}
+              "replay": "printf 'model <description>\\n<rule lines of checks/c31.py rule_lines()>\\noracle 1\\nload %s\\n' | <c31_mjb harness>"
+                        % case["edits"][:300], "description": desc}
 
     def fail(key, what):
         fails.setdefault(key, []).append((what, replay))
@@ -520,23 +543,23 @@ def classify(ctx, case, model_out, impl_out, covered, mdl_idx, desc, fails):
     for t in impl_out.split():
         if t.startswith("san=") or t.startswith("at="):
             san += " " + t
-    if "canary=overwritten" in impl_out or ("crash" in res.split() or res.startswith("crash")):
-        # died inside mj_loadModelBuffer (or its heap was found corrupted at mj_deleteModel)
+    if "canary=overwritten" in impl_out or res.startswith("crash") or " crash " in (" " + res + " "):
+        # died inside mj_loadModelBuffer, or wrote past the end of the model buffer it allocated
         if cls in ("nnames_map", "size", "resize"):
             fail("c31:loader-memory-unsafe:%s" % field, "mj_loadModelBuffer crashed / wrote past the model buffer with a corrupted %s (%s):%s %s"
-                 % (field, case["note"], san, res[:120]))
+                 % (field, case["note"], san, res[:160]))
         else:
-            fail("c31:loader-crash:%s:%s" % (cls, field), "mj_loadModelBuffer crashed on a corrupted %s (%s):%s %s" % (field, case["note"], san, res[:120]))
+            fail("c31:loader-crash:%s:%s" % (cls, field), "mj_loadModelBuffer crashed on a corrupted %s (%s):%s %s" % (field, case["note"], san, res[:160]))
         return "crash"
     if res.startswith("fatal"):
         if "Could not allocate memory" in res:
             return "allocfail"
         fail("c31:corrupt-file-aborts:%s" % res[6:].split(" nbuf")[0][:80],
-             "a corrupted %s (%s) ends in mju_error (the process exits) instead of a warning and NULL: %s" % (field, case["note"], res[:160]))
+             "a corrupted %s (%s) ends in mju_error (by default the process exits) instead of a warning and NULL: %s" % (field, case["note"], res[:160]))
         return "fatal"
     if res.startswith("reject"):
         if "leak=1" in impl_out:
-            fail("c31:leak-on-reject:%s" % res[7:].split(" nbuf")[0][:60], "rejected load leaks the model allocated by mj_makeModel: %s" % impl_out[:300])
+            fail("c31:leak-on-reject:%s" % res[7:].split(" nbuf")[0][:60], "rejected load leaks the model allocated by mj_makeModel: %s" % impl_out[:400])
         return "reject"
     if not res.startswith("ok"):
         fail("c31:harness-output", "unparseable harness output: " + impl_out[:200])
@@ -544,36 +567,35 @@ def classify(ctx, case, model_out, impl_out, covered, mdl_idx, desc, fails):
     # accepted: independent bounds check, then mj_makeData / mj_forward
     kv = dict(t.split("=", 1) for t in orc.split() if "=" in t)
     oob = kv.get("oob", "?")
-    crashed = "crash" in orc.split()
+    crashed = "crash" in orc.split() or "timeout" in orc.split()
     stage = kv.get("stage", "")
+    tail = (" and mj_%s then crashed" % stage) if crashed else ""
     if oob not in ("-", "?"):
         arr = oob.split("[")[0].split(":")[0]
-        big = False
+        v = num = None
         try:
             v = int(oob.split("=")[1].split(",")[0])
-            big = v == 2147483647
+            num = int(oob.split("num=")[1].split(",")[0])
         except Exception:
-            v = None
-        if big and arr in covered:
-            fail("c31:validate-int-overflow", "the loader accepted %s = INT_MAX (`adr + num` wraps in mj_validateReferences)%s: %s"
-                 % (oob, (" and mj_%s crashed" % stage) if crashed else "", orc[:200]))
+            pass
+        if arr in covered and v is not None and num is not None and v + num > 2147483647:
+            fail("c31:validate-int-overflow", "the loader accepted %s: `adr + num` overflows `int` in mj_validateReferences and wraps%s%s"
+                 % (oob, tail, san))
+        elif arr in covered and v == -1:
+            fail("c31:minus-one-with-count-accepted", "the loader accepted %s (address -1 with a non-empty range; every row of the table accepts -1)%s"
+                 % (oob, tail))
         elif arr in covered:
-            if v == -1:
-                fail("c31:minus-one-with-count-accepted", "the loader accepted %s (address -1 with a non-empty range)%s"
-                     % (oob, (" and %s crashed" % stage) if crashed else ""))
-            else:
-                fail("c31:accepted-oob-reference:%s" % arr, "the loader accepted a model with %s although %s is validated%s: %s"
-                     % (oob, arr, (" and %s crashed" % stage) if crashed else "", orc[:200]))
+            fail("c31:accepted-oob-reference:%s" % arr, "the loader accepted a model with %s although %s is validated (%s %s)%s%s"
+                 % (oob, arr, field, case["note"], tail, san))
         else:
             fail("c31:unvalidated-index-array:%s" % arr, "the loader accepted a model with %s: %s is not validated by mj_validateReferences%s%s"
-                 % (oob, arr, (" and mj_%s then crashed" % stage) if crashed else "", san))
+                 % (oob, arr, tail, san))
         return "accepted-oob"
-    if crashed or "timeout" in orc.split():
-        if cls == "size" or cls == "resize":
-            fail("c31:unvalidated-size:%s" % field, "accepted model with %s %s crashes in %s:%s %s" % (field, case["note"], stage, san, orc[:200]))
-        else:
-            fail("c31:accepted-model-crashes:%s:%s" % (cls, field), "accepted model (all hand-listed index arrays in bounds) crashes in %s after corrupting %s %s:%s %s"
-                 % (stage, field, case["note"], san, orc[:200]))
+    if crashed:
+        # every hand-listed index is in bounds, yet the model is inconsistent enough to crash the engine: beyond what C31
+        # states (cross-references in bounds), recorded as an observation
+        notes.setdefault("accepted_inbounds_models_that_crash", []).append(
+            "%s %s %s -> %s %s" % (cls, field, case["note"], stage, san.strip()[:160]))
         return "accepted-crash"
     if "leak=1" in orc:
         fail("c31:leak-after-accept", "leak after an accepted load: " + orc[:300])
@@ -664,10 +686,10 @@ def run(ctx):
         cases = corruption_cases(ctx, info, img, thorough, fields, info["refs"])
         if not thorough:
             # quick tier: bound the number of loads per model
-            keep = [c for c in cases if c["cls"] in ("header", "nnames_map")]
-            rest = [c for c in cases if c["cls"] not in ("header", "nnames_map")]
+            keep = [c for c in cases if c["canonical"]]
+            rest = [c for c in cases if not c["canonical"]]
             ctx.rng.shuffle(rest)
-            cases = keep + rest[:700]
+            cases = keep + rest[:QUICK_SAMPLED_PER_MODEL]
         for c in cases:
             lines.append("load " + c["edits"])
             meta.append(("corrupt", k, c))
@@ -705,6 +727,7 @@ def run(ctx):
     ctx.extra["allocation_cap_cases"] = run1.allocfail
 
     fails = {}
+    notes = {}
     outcome_hist = {}
     desc_of = {k: d for k, d, _, _ in models}
     for l, mt, (a, b) in zip(lines, meta, pairs):
@@ -728,7 +751,7 @@ def run(ctx):
                 fails.setdefault(key, []).append(("truncated image not cleanly rejected: %s -> %s" % (l, bad[:300]),
                                                   {"model": mt[1], "op": l, "impl_output": bad[:600], "description": desc_of[mt[1]]}))
         elif kind == "corrupt":
-            oc = classify(ctx, mt[2], a, b, covered, mt[1], desc_of[mt[1]], fails)
+            oc = classify(ctx, mt[2], a, b, covered, mt[1], desc_of[mt[1]], fails, notes)
             outcome_hist[mt[2]["cls"] + ":" + oc] = outcome_hist.get(mt[2]["cls"] + ":" + oc, 0) + 1
     ctx.extra["corruption_outcomes"] = outcome_hist
 
@@ -786,7 +809,7 @@ def run(ctx):
                                                           {"model": mt[1], "op": l, "impl_output": bad[:600], "variant": av,
                                                            "description": desc_of[mt[1]]}))
                 else:
-                    oc = classify(ctx, mt[2], "", b, covered, mt[1], desc_of[mt[1]], fails)
+                    oc = classify(ctx, mt[2], "", b, covered, mt[1], desc_of[mt[1]], fails, notes)
                     ah[mt[2]["cls"] + ":" + oc] = ah.get(mt[2]["cls"] + ":" + oc, 0) + 1
             ctx.extra["asan_outcomes"] = ah
         ctx.leanchecker(["MjProof.Props.C31", "MjProof.Props.C31Gen"])
@@ -797,6 +820,7 @@ def run(ctx):
         replay = dict(replay, occurrences=len(fails[key]), other_instances=[w[:160] for w, _ in fails[key][1:4]])
         ctx.oracle_failure(key, what, replay)
     ctx.extra["oracle_failure_keys"] = {k: len(v) for k, v in sorted(fails.items())}
+    ctx.extra["observations_not_violations"] = {k: {"count": len(v), "examples": v[:8]} for k, v in notes.items()}
     ctx.extra["oracle_checked"] = sum(1 for m in meta if m)
     for i, (l, mt) in enumerate(zip(lines, meta)):
         if mt and mt[0] == "save":
@@ -826,7 +850,7 @@ def run(ctx):
             if kv.get("n") != kv.get("reject"):
                 return {"key": "c31:truncation-not-rejected", "what": "truncation not rejected: " + sw[:300], "replay": {"description": d, "op": "sweep 0 %d 1" % img.total}}
             for c, o in zip(cs, outs[base + 2:]):
-                classify(ctx2, c, "", o, covered, k, d, fl)
+                classify(ctx2, c, "", o, covered, k, d, fl, {})
         known = {kf["key"] for kf in ctx2.known()}
         for key in sorted(fl):
             if key not in known and key not in fails:
